@@ -104,6 +104,7 @@ func (c Concurrent) Hash(files []string) (string, error) {
 	var accumulator [][]byte
 	var errors []error
 	for r := range results {
+		verifYield("main:recv")
 		// Accumulating errors as no matter what we'll need to range over the results
 		// channel to drain it
 		if r.err != nil {
@@ -143,6 +144,7 @@ func (c Concurrent) Hash(files []string) (string, error) {
 func worker(results chan<- result, files <-chan string, wg *sync.WaitGroup) {
 	defer wg.Done()
 	for file := range files {
+		verifYield("worker:job")
 		var res result
 		res.file = file
 		f, err := os.Open(file)
@@ -171,6 +173,7 @@ func worker(results chan<- result, files <-chan string, wg *sync.WaitGroup) {
 		}
 		res.hash = hash.Sum(nil)
 
+		verifYield("worker:send")
 		results <- res
 	}
 }
